@@ -191,6 +191,29 @@ func genC05(e *emitter, tier string, seed int64) {
 			lexCase(e, src[:o.at]+bad[rng.Intn(len(bad))]+src[o.at+o.n:], "rejected-operand")
 		}
 	}
+	// 3c. a complete program followed, at a statement boundary, by something the lexer refuses (an
+	// unterminated string, an illegal character, a stray byte): the text as a whole is not a program,
+	// whatever the tokens before the fault spell
+	{
+		tgen := &tg{rng: rng}
+		tails := []string{"\"abc", "'abc", "\"abc\\", "'''never closed\n", "\"\"\"never closed", "`never", "$", "$ = 2", "~", "@", "?", "^", "\x00", "\xff", "\xc3", "x = 1 ~", "\"\\ud800\"", "y = \"abc"}
+		seps := []string{"\n", ";", "; ", "\n\n", " \n", "\n# c\n", " "}
+		M := N / 4
+		for i := 0; i < M; i++ {
+			ss := []any{}
+			for k := 1 + rng.Intn(2); k > 0; k-- {
+				ss = append(ss, tgen.stmt(rng.Intn(3)))
+			}
+			src := strings.TrimRight(printProg(rng, ss, "canon"), "\n ")
+			lexCase(e, src+seps[rng.Intn(len(seps))]+tails[rng.Intn(len(tails))]+[]string{"", "\n", "\nz = 3\n"}[rng.Intn(3)], "fault-after-program")
+		}
+		for _, t := range tails {
+			for _, sp := range seps {
+				lexCase(e, "a = 1"+sp+t, "fault-after-program")
+				lexCase(e, "f()"+sp+t+"\n", "fault-after-program")
+			}
+		}
+	}
 	// 4. named hard cases: unterminated strings/escapes, malformed numbers, deep nesting
 	hard := []string{"x = \"\\t\xc4\xe3\xba\xc3\"\n", "\"\\\\\xff\xfe\xfd\"", "x = '''a\n\xff\xfe\xfd\xfc'''\n", "\"\"\"\\n\xff\xff\xff\"\"\"", "'\\x41\x80\x80\x80\x80'", "a = b / (c / 0)", "x = 10 % (0x)", "a / (1e)", "x = [1, (2 % 0)] + 1", "f(a = (1e))", "if (0x) {}", "for x in (1e) {}", "a[(0x)] = 1", "a =\u00a01\n", "x\u3000= 1", "\u2028", "if\u0085x {}", "a = \"\u00a0\" \u00a0", "-0x", "for a in 1e {}", "x = [1e", "\"abc", "\"abc\\", "\"\\", "\"\\u", "\"\\U0011000", "'''abc", "`abc", "1.2.3", "0x", "1e", "1e+", "08", "0b1", "1_0",
 		"a.b.c", "a..b", ".[0]", "a[", "a[1", "a[1:", "a[::", "f(", "f(1,", "f(,)", "{", "{\"a\"", "{\"a\":", "if", "if x", "if x {", "for", "for ;", "for ;;", "for x in", "elif x {}", "else {}",
